@@ -272,6 +272,15 @@ func init() {
 		i.call(fr, 0, a[0], nil)
 		return tuple{"", false}
 	})
+	rt("Persistent", func(i *Interp, fr *frame, a []value) value {
+		// runs with the undo log off, so that its effects belong to the initial state
+		saved := i.logging
+		i.logging = false
+		i.initDepth++
+		defer func() { i.logging = saved; i.initDepth-- }()
+		i.call(fr, 0, a[0], nil)
+		return nil
+	})
 	rt("KnownFinding", func(i *Interp, fr *frame, a []value) value {
 		// KnownFinding(id, pred): inputs matching an *open* known finding are set aside in the
 		// main run and explored on their own in the known-finding run. Ids that are not listed
